@@ -125,7 +125,7 @@ class C07(ProtoSpec):
         X, Y = "X", "Y"
         self.cfg = dict(storage="memory")
         if tier == "quick":
-            binds = [[(X, "A")], [(X, "A"), (X, "B")], [(X, "A"), (X, "B")], [(X, "B")]]
+            binds = [[(X, "A")], [(X, "A"), (X, "B")], [(X, "A"), (X, "B"), (X, "C")], [(X, "B")]]
             self.driver = Driver(binds, names=("1", "2"), mids=(),
                                  kinds=("bind", "claim", "release", "close", "list", "drop"),
                                  release_forms=("named", "bare", "unclaimed"), close_forms=("unopened",), max_drops=1)
